@@ -49,6 +49,8 @@ static MantisParallelECBVtable_t const mantis_parallel_ecb_vec128 = {
 int mantis_parallel_ecb_init(MantisParallelECB_t *ecb)
 {
     MantisKey_t *ctx;
+    if (!ecb)
+        return 0;
     if ((ctx = calloc(1, sizeof(MantisKey_t))) == NULL) {
         /* Leave the object in a state that is safe to clean up */
         ecb->vtable = 0;
